@@ -12,25 +12,25 @@ Definition only (k : nat) : deviations :=
 
 Definition fl (g m : N) (imps : list imp) : file := {| f_gen := g; f_mtime := m; f_imps := imps |}.
 Definition spec_of_model (dv : deviations) (steps : list rstep) : bool :=
-  rcase_spec_ok {| rc_steps := steps; rc_obs := model_obs dv {| rc_steps := steps; rc_obs := [] |} |}.
+  rcase_spec_ok {| rc_legacy := false; rc_steps := steps; rc_obs := model_obs dv {| rc_legacy := false; rc_steps := steps; rc_obs := [] |} |}.
 
 (* D100: a.py imports modules/m.py; m.py is deleted; default reload *)
 Definition w100 : list rstep :=
-  [ {| rs_tree := [([3; 60], fl 2 2 []); ([10], fl 1 1 [ImpAbs [60]])]; rs_cfg := []; rs_arg := RNone |};
-    {| rs_tree := [([10], fl 1 1 [ImpAbs [60]])]; rs_cfg := []; rs_arg := RNone |} ]%N.
+  [ {| rs_tree := [([3; 60], fl 2 2 []); ([10], fl 1 1 [ImpAbs [60]])]; rs_cfg := []; rs_arg := RNone; rs_opts := 0 |};
+    {| rs_tree := [([10], fl 1 1 [ImpAbs [60]])]; rs_cfg := []; rs_arg := RNone; rs_opts := 0 |} ]%N.
 (* D101: package m with siblings x -> y imported relatively; a no-change reload *)
 Definition t101 : tree :=
   [([3; 60; 0], fl 2 2 [ImpRel [70]]); ([3; 60; 70], fl 3 3 [ImpRel [71]]); ([3; 60; 71], fl 4 4 []); ([10], fl 1 1 [ImpAbs [60]])]%N.
 Definition w101 : list rstep :=
-  [ {| rs_tree := t101; rs_cfg := []; rs_arg := RNone |}; {| rs_tree := t101; rs_cfg := []; rs_arg := RNone |} ].
+  [ {| rs_tree := t101; rs_cfg := []; rs_arg := RNone; rs_opts := 0 |}; {| rs_tree := t101; rs_cfg := []; rs_arg := RNone; rs_opts := 0 |} ].
 (* D102: app package configured with a null entry, then the entry is removed *)
 Definition w102 : list rstep :=
-  [ {| rs_tree := [([1; 40; 0], fl 1 1 [])]; rs_cfg := [(40, 0)]; rs_arg := RNone |};
-    {| rs_tree := [([1; 40; 0], fl 1 1 [])]; rs_cfg := []; rs_arg := RNone |} ]%N.
+  [ {| rs_tree := [([1; 40; 0], fl 1 1 [])]; rs_cfg := [(40, 0)]; rs_arg := RNone; rs_opts := 0 |};
+    {| rs_tree := [([1; 40; 0], fl 1 1 [])]; rs_cfg := []; rs_arg := RNone; rs_opts := 0 |} ]%N.
 (* D103: reload of a module by name *)
 Definition t103 : tree := [([3; 60], fl 2 2 []); ([10], fl 1 1 [ImpAbs [60]])]%N.
 Definition w103 : list rstep :=
-  [ {| rs_tree := t103; rs_cfg := []; rs_arg := RNone |}; {| rs_tree := t103; rs_cfg := []; rs_arg := RName [3; 60]%N |} ].
+  [ {| rs_tree := t103; rs_cfg := []; rs_arg := RNone; rs_opts := 0 |}; {| rs_tree := t103; rs_cfg := []; rs_arg := RName [3; 60]%N; rs_opts := 0 |} ].
 
 Lemma refuted_D100 : exists steps, spec_of_model (only 100) steps = false /\ spec_of_model all_off steps = true.
 Proof. exists w100. split; vm_compute; reflexivity. Qed.
@@ -97,9 +97,9 @@ Definition ex_tree2 : tree :=
    ([3; 60], fl 2 2 [ImpAbs [62]]); ([3; 61], fl 3 3 [ImpAbs [62]]); ([3; 62], fl 4 9 []);
    ([4; 30; 21], fl 7 7 []); ([10], fl 1 1 [ImpAbs [60]; ImpAbs [61]]); ([1011], fl 8 8 [])]%N.
 Definition ex_steps : list rstep :=
-  [ {| rs_tree := ex_tree; rs_cfg := ex_cfg; rs_arg := RNone |}; {| rs_tree := ex_tree2; rs_cfg := ex_cfg; rs_arg := RNone |} ].
+  [ {| rs_tree := ex_tree; rs_cfg := ex_cfg; rs_arg := RNone; rs_opts := 0 |}; {| rs_tree := ex_tree2; rs_cfg := ex_cfg; rs_arg := RNone; rs_opts := 0 |} ].
 
-Example ex_history : hist_all (fun _ st _ => acyclic st) 0%N [] ex_steps.
+Example ex_history : hist_all (fun _ st _ _ => acyclic st) 0%N None [] ex_steps.
 Proof.
   cbn [hist_all ex_steps]. split; [|split; [|exact I]].
   - exists (fun _ => 0%nat). intros a b (c & G & _). discriminate.
